@@ -9,7 +9,7 @@ func init() {
 	register(&propDef{
 		id: "C30", title: "A grain is active on at most one node at a time",
 		technique: "who-may-call + AST nesting (every local activation runs under the per-identity single flight), CFG ordering (ownership claim ≺ activate; mismatch/error edges never activate), put-if-absent rule for the claim, rollback pairing on failure edges",
-		explanation: "Decides the local protocol shape that the cluster-wide property needs: (1) every call of grainPID.activate sits in a function that runs only inside the closure handed to runGrainActivation (per-identity single flight): the closures themselves, ensureExistingGrainProcess / ensureNewGrainProcess / recreateGrainOnce called from them; (2) on the send path the ownership check/claim (ensureGrainOwnership, tryClaimGrain) precedes activate, and its error and owner-mismatch edges never reach activate; (3) the claim is a put-if-absent (PutGrainIfAbsent), the existing-key error is mapped to 'not claimed, owner = registry value'; (4) rollback: a failed activate on a path that made a claim releases it (RemoveGrain), and a failed publication rolls back what this call created (finalizeGrainActivation). NOT decided: cross-node interleavings of registry operations, crash points between claim and activation, and convergence of the registry.",
+		explanation: "Decides the local protocol shape that the cluster-wide property needs: (1) every call of grainPID.activate sits in a function that runs only inside the closure handed to runGrainActivation (per-identity single flight): the closures themselves, ensureExistingGrainProcess / ensureNewGrainProcess / recreateGrainOnce called from them; (2) on the send path the ownership check/claim (ensureGrainOwnership, tryClaimGrain) precedes activate, and its error and owner-mismatch edges never reach activate; (3) the claim is a put-if-absent (PutGrainIfAbsent), the existing-key error is mapped to 'not claimed, owner = registry value'; (4) rollback: a failed activate on a path that made a claim releases it (RemoveGrain), and a failed publication rolls back what this call created (finalizeGrainActivation). NOT decided: cross-node interleavings of registry operations, crash points between claim and activation, and convergence of the registry. Added after seed C30a: inside the per-identity single flight the grain table is looked up again before a process is created or re-activated.",
 		assumptions: []string{"atomicity of the registry's put-if-absent across nodes (olric)", "cross-node schedules and node crashes"},
 		minObl:     18,
 		run:        runC30,
